@@ -89,15 +89,24 @@ func key(tag string) []byte {
 	return zzverif.Bytes(tag, n)
 }
 
+// value draws a request value: an arbitrary byte string of length 0..2, or nine arbitrary bytes
+// (the length of the storage layer's reserved deletion mark).
+func value(tag string) []byte {
+	if zzverif.Param("val9", 0) == 1 && zzverif.Choose(tag+".nine", 2) == 1 {
+		return zzverif.Bytes(tag, 9)
+	}
+	return key(tag)
+}
+
 func (w *world) request(tag string) {
 	ctx := context.Background()
 	k := key(tag + ".key")
 	rev := zzverif.I64(tag + ".rev")
 	switch zzverif.Choose(tag+".handler", zzverif.Param("handlers", 15)) {
 	case 0:
-		w.bs.Create(ctx, &proto.CreateRequest{Key: k, Value: key(tag + ".val")})
+		w.bs.Create(ctx, &proto.CreateRequest{Key: k, Value: value(tag + ".val")})
 	case 1:
-		w.bs.Update(ctx, &proto.UpdateRequest{Kv: &proto.KeyValue{Key: k, Value: key(tag + ".val"), Revision: uint64(rev)}})
+		w.bs.Update(ctx, &proto.UpdateRequest{Kv: &proto.KeyValue{Key: k, Value: value(tag + ".val"), Revision: uint64(rev)}})
 	case 2:
 		if zzverif.Choose(tag+".nilkv", 2) == 1 {
 			w.bs.Update(ctx, &proto.UpdateRequest{})
@@ -133,7 +142,7 @@ func (w *world) request(tag string) {
 		// etcd transaction of one of the supported shapes with hostile values
 		cmp := &etcdserverpb.Compare{Target: etcdserverpb.Compare_MOD, Result: etcdserverpb.Compare_EQUAL, Key: k,
 			TargetUnion: &etcdserverpb.Compare_ModRevision{ModRevision: rev}}
-		put := &etcdserverpb.RequestOp{Request: &etcdserverpb.RequestOp_RequestPut{RequestPut: &etcdserverpb.PutRequest{Key: k, Value: key(tag + ".val")}}}
+		put := &etcdserverpb.RequestOp{Request: &etcdserverpb.RequestOp_RequestPut{RequestPut: &etcdserverpb.PutRequest{Key: k, Value: value(tag + ".val")}}}
 		get := &etcdserverpb.RequestOp{Request: &etcdserverpb.RequestOp_RequestRange{RequestRange: &etcdserverpb.RangeRequest{Key: k}}}
 		del := &etcdserverpb.RequestOp{Request: &etcdserverpb.RequestOp_RequestDeleteRange{RequestDeleteRange: &etcdserverpb.DeleteRangeRequest{Key: k}}}
 		switch zzverif.Choose(tag+".shape", 4) {
